@@ -519,6 +519,7 @@ pub fn c11_program(ctx: &Ctx, out: &mut RunOut) -> Result<(), Violation> {
                     let off = ctx.draw(F, probe.len() as u64, "fault-offset") as usize;
                     let kind = if ctx.chance(F, 1, 4, "zero-write") { FaultKind::ZeroWrite } else { FaultKind::Hard(HARD_KINDS[ctx.draw(F, HARD_KINDS.len() as u64, "fault-kind") as usize]) };
                     cfg.fault_at = Some((off, kind));
+                    cfg.recovers = ctx.chance(F, 1, 3, "fault-recovers");
                 }
                 let mut sink = SimSink::new(ctx, cfg);
                 let r = guarded(&opname, || w.d.save_to(&mut sink))?;
